@@ -148,3 +148,140 @@ pub fn basic_packer_run(
     }
     Ok(out)
 }
+
+// ----------------------------------------------------------------------------------------
+// Repacker: coalescing of reads (`BlobLocations::coalesce`, `CopyPackBlobs::coalesce`) and
+// `BlobCopier::{copy_fast, copy}`.
+
+/// One blob to copy: `(source pack, offset, length, uncompressed length, blob id)`.
+pub type CopyEntry = (Id, u32, u32, Option<u32>, Id);
+/// One coalesced read: `(pack, offset, length, blobs as (id, offset, length, uncompressed length))`.
+pub type CopyChunk = (Id, u32, u32, Vec<(Id, u32, u32, Option<u32>)>);
+
+fn to_copy_pack_blobs(entries: &[CopyEntry]) -> Vec<crate::blob::packer::CopyPackBlobs> {
+    entries
+        .iter()
+        .map(|(pack, off, len, ulen, id)| crate::blob::packer::CopyPackBlobs {
+            pack_id: PackId::from(*pack),
+            locations: crate::blob::BlobLocations::from_blob_location(
+                BlobLocation {
+                    offset: *off,
+                    length: *len,
+                    uncompressed_length: ulen.and_then(NonZeroU32::new),
+                },
+                BlobId::from(*id),
+            ),
+        })
+        .collect()
+}
+
+fn chunk_fields(c: &crate::blob::packer::CopyPackBlobs) -> CopyChunk {
+    (
+        *c.pack_id,
+        c.locations.offset,
+        c.locations.length,
+        c.locations
+            .blobs
+            .iter()
+            .map(|(l, id)| {
+                (
+                    **id,
+                    l.offset,
+                    l.length,
+                    l.uncompressed_length.map(NonZeroU32::get),
+                )
+            })
+            .collect(),
+    )
+}
+
+/// What `commands::copy::copy_blobs` does before copying: optional `sort_unstable()` (the derived
+/// order of `CopyPackBlobs`), then itertools' `coalesce(CopyPackBlobs::coalesce)`.
+#[must_use]
+pub fn coalesce_copy_blobs(entries: &[CopyEntry], sort: bool) -> Vec<CopyChunk> {
+    use itertools::Itertools;
+    let mut blobs = to_copy_pack_blobs(entries);
+    if sort {
+        blobs.sort_unstable();
+    }
+    blobs
+        .into_iter()
+        .coalesce(crate::blob::packer::CopyPackBlobs::coalesce)
+        .map(|c| chunk_fields(&c))
+        .collect()
+}
+
+/// What `prune` does per repacked pack: itertools' `coalesce(BlobLocations::coalesce)` over the
+/// blobs of one pack, each chunk then labelled with the pack id.
+#[must_use]
+pub fn coalesce_locations(pack: Id, entries: &[CopyEntry]) -> Vec<CopyChunk> {
+    use itertools::Itertools;
+    to_copy_pack_blobs(entries)
+        .into_iter()
+        .map(|c| c.locations)
+        .coalesce(crate::blob::BlobLocations::coalesce)
+        .map(|locations| {
+            chunk_fields(&crate::blob::packer::CopyPackBlobs {
+                pack_id: PackId::from(pack),
+                locations,
+            })
+        })
+        .collect()
+}
+
+/// Runs a real `BlobCopier` (source backend/key -> destination backend/key): coalesces the entries
+/// as `copy_blobs` does, calls `copy_fast` or `copy` on every chunk in order, finalizes the copier
+/// and the indexer.  The destination backend then holds the written packs and index.
+pub fn repack_run(
+    src: Arc<dyn WriteBackend>,
+    key_src: &MasterKey,
+    dst: Arc<dyn WriteBackend>,
+    key_dst: &MasterKey,
+    tpe: BlobType,
+    entries: &[CopyEntry],
+    fast: bool,
+    sort: bool,
+) -> Result<Vec<CopyChunk>, String> {
+    use itertools::Itertools;
+    let be_src = DecryptBackend::new(src, key_src.key());
+    let be_dst = DecryptBackend::new(dst, key_dst.key());
+    let indexer = crate::index::indexer::Indexer::new(be_dst.clone()).into_shared();
+    let copier = crate::blob::packer::BlobCopier::new(
+        be_src,
+        be_dst,
+        tpe,
+        indexer.clone(),
+        PackSizer::fixed(u32::MAX),
+    )
+    .map_err(|e| e.to_string())?;
+    let mut blobs = to_copy_pack_blobs(entries);
+    if sort {
+        blobs.sort_unstable();
+    }
+    let chunks: Vec<_> = blobs
+        .into_iter()
+        .coalesce(crate::blob::packer::CopyPackBlobs::coalesce)
+        .collect();
+    let summary = chunks.iter().map(chunk_fields).collect();
+    let p = crate::Progress::hidden();
+    let mut res = Ok(());
+    for c in chunks {
+        res = if fast {
+            copier.copy_fast(c, &p)
+        } else {
+            copier.copy(c, &p)
+        };
+        if res.is_err() {
+            break;
+        }
+    }
+    let fin = copier.finalize();
+    res.map_err(|e| e.to_string())?;
+    let _ = fin.map_err(|e| e.to_string())?;
+    indexer
+        .write()
+        .unwrap()
+        .finalize()
+        .map_err(|e| e.to_string())?;
+    Ok(summary)
+}
